@@ -80,6 +80,31 @@ class exact_mode:
         _imports()[0].MIN_TO_MSEC = self.old
 
 
+class time_limit:
+    """the loop under test inserts into the list it walks: an edit that breaks its progress must not hang the check"""
+
+    def __init__(self, seconds):
+        self.s = seconds
+
+    def _raise(self, *a):
+        raise TimeoutError("implementation did not terminate")
+
+    def __enter__(self):
+        import signal
+        try:
+            self.old = signal.signal(signal.SIGALRM, self._raise)
+            signal.setitimer(signal.ITIMER_REAL, self.s)
+            self.armed = True
+        except ValueError:          # not in the main thread
+            self.armed = False
+
+    def __exit__(self, *a):
+        if self.armed:
+            import signal
+            signal.setitimer(signal.ITIMER_REAL, 0)
+            signal.signal(signal.SIGALRM, self.old)
+
+
 # ------------------------------------------------------------------------------------------ generators
 
 def _hb_table():
@@ -385,7 +410,7 @@ def run(case, drv):
     spec_inp, spec_t0 = jcs, t0x
     impl_tm0 = None
     # ---------------- implementation
-    with exact_mode(mode == "exact"):
+    with exact_mode(mode == "exact"), time_limit(10):
         try:
             bcs = build_impl_changes(cs, mode)
             if claim == "reseat":
@@ -399,6 +424,8 @@ def run(case, drv):
                 impl_tm0 = bco_to_j(tm0.bpm_changes_offset)
                 tm = tm0.reseat()
                 impl = ("ok", bco_to_j(tm.bpm_changes_offset))
+        except MemoryError:
+            impl = ("err", "other:MemoryError", False)
         except Exception as e:
             impl = ("err", err_class(e), noise_zero_metronome(e))
     # ---------------- model
